@@ -173,8 +173,11 @@ void ezc3d::c3d::readParam(unsigned int dataLenghtInBytes, const std::vector<siz
                        std::vector<int> &param_data, size_t currentIdx)
 {
     for (size_t i = 0; i < dimension[currentIdx]; ++i)
-        if (currentIdx == dimension.size()-1)
+        if (currentIdx == dimension.size()-1){
             param_data.push_back (readInt(dataLenghtInBytes*ezc3d::DATA_TYPE::BYTE));
+            if (this->eof()) // The announced size is not in the file: stop instead of looping over it
+                throw std::ios_base::failure("Unexpected end of file while reading a parameter");
+        }
         else
             readParam(dataLenghtInBytes, dimension, param_data, currentIdx + 1);
 }
@@ -183,8 +186,11 @@ void ezc3d::c3d::readParam(const std::vector<size_t> &dimension,
                        std::vector<float> &param_data, size_t currentIdx)
 {
     for (size_t i = 0; i < dimension[currentIdx]; ++i)
-        if (currentIdx == dimension.size()-1)
+        if (currentIdx == dimension.size()-1){
             param_data.push_back (readFloat());
+            if (this->eof())
+                throw std::ios_base::failure("Unexpected end of file while reading a parameter");
+        }
         else
             readParam(dimension, param_data, currentIdx + 1);
 }
@@ -234,8 +240,11 @@ void ezc3d::c3d::_readMatrix(const std::vector<size_t> &dimension,
                        std::vector<std::string> &param_data, size_t currentIdx)
 {
     for (size_t i = 0; i < dimension[currentIdx]; ++i)
-        if (currentIdx == dimension.size()-1)
+        if (currentIdx == dimension.size()-1){
             param_data.push_back(readString(ezc3d::DATA_TYPE::BYTE));
+            if (this->eof())
+                throw std::ios_base::failure("Unexpected end of file while reading a parameter");
+        }
         else
             _readMatrix(dimension, param_data, currentIdx + 1);
 }
